@@ -1,6 +1,19 @@
 """Per-property configuration of ./check (sub-command of the harness, Lean modules, evidence text)."""
 
 PROPS = {
+    "C21": {
+        "sub": "c21",
+        "trivial": r"^enc .* ps=$",
+        "level_text": "Proof: C21_roundtrip_auto (decode . encode = the non-empty parameters + sleep flag, for every parameter set; separators "
+                      "fresh by C21_separators_fresh; rejection characterised by C21_encode_rejects_iff), with the name/exclusion side "
+                      "condition discharged by `decide` on facts regenerated from params.go on every run. The implementation's strings are "
+                      "decoded by the Lean reference decoder that occurs in the theorem and compared with the parameters given.",
+        "level_note": "Trusted: Lean kernel, the facts translator, the harness. The reference decoder is the documented format "
+                      "(= deserialize_dict of hack/fuse-demo/wrap_datamon.sh); the zsh script itself is not executed. Values are valid UTF-8.",
+        "trusted": ["reference decoder = documented format (first two characters are the separators); the shipped zsh decoder is not run"],
+        "assumptions": ["values are valid UTF-8 strings", "bundle / database names are distinct (they key the environment variables)",
+                        "pg DestBundleID and Contributor are not part of the environment format (never encoded by the code)"],
+    },
     "C22": {
         "sub": "c22",
         "level_text": "Proof: theorem C22_tracker_exact (Lean 4, no bound on the number of writes, offsets or lengths) states the property "
